@@ -221,6 +221,12 @@ def write_replay(pid, body):
 
 
 def write_evidence(pid, ev):
+    # a run against a mutated copy of fcppt (VERIF_REPO) must never overwrite the evidence of the real tree
+    if os.path.realpath(paths.REPO) != "/repo":
+        os.makedirs(paths.REPLAYS, exist_ok=True)
+        with open(os.path.join(paths.REPLAYS, f"evidence-{pid}-other-tree.json"), "w") as f:
+            json.dump(ev, f, indent=1)
+        return
     os.makedirs(paths.EVIDENCE, exist_ok=True)
     tmp = os.path.join(paths.EVIDENCE, f".{pid}.{os.getpid()}.tmp")
     json.dump(ev, open(tmp, "w"), indent=1)
